@@ -2,7 +2,7 @@
 
 use crate::ctx::Ctx;
 use crate::json::{fvec, J};
-use crate::mon::c06::{alpha_pick, random_cepstrum, shape_of, RATES};
+use crate::mon::c06::{alpha_pick, random_cepstrum, rate_pick, shape_of, RATES};
 use crate::pulse::steady_state;
 use crate::refimpl::{least_squares, mcep_logspec, warp};
 use crate::rng::mix;
@@ -13,7 +13,7 @@ pub fn run(ctx: &mut Ctx) {
     ctx.run_cases("postfilter", n, false, |ctx, rng, idx| {
         let order = if idx % 10 == 0 { 2 } else if idx % 10 == 1 { 3 } else { rng.range(3, 40) };
         let alpha = alpha_pick(rng);
-        let rate = RATES[(idx / 2) % RATES.len()];
+        let rate = rate_pick(rng, idx / 2);
         let beta = if idx % 7 == 0 { 0.5 } else { rng.uniform(0.01, 0.5) };
         let target = rng.uniform(0.05, 1.3);
         let resonant = idx % 4 == 3;
